@@ -51,7 +51,8 @@ PROP = dict(
         'br.max<65536', 'br.max>=65536', 'edge.max65536',
         'br.asc', 'br.desc', 'br.unsorted',
         'br.density>0.05', 'br.density<=0.05', 'edge.density0.05',
-        'br.count<10000', 'br.count=10000', 'br.count>10000.sampled',
+        'br.count<10000', 'br.count=10000', 'br.count>10000',
+        'br.count>10000.sampled',
         'br.bitmapGate.count>=10000',
         'br.sampled.misjudged0.15', 'br.sampled.misjudged0.9',
         'br.avgDelta<1000', 'br.avgDelta>=1000', 'edge.avgDelta1000',
